@@ -153,6 +153,12 @@ class AbstractStep:
         return out
 
 
+def _sname(cfg, k):
+    """Step label: distinct by default; with cfg['names'] == 'same' every step carries the SAME label (labels are only
+    labels - the property speaks of the steps, and Chain never asks for unique names)."""
+    return "s" if cfg.get("names") == "same" else "s%d" % k
+
+
 def _chain_kinds(tier):
     base = ["g", "gg", "ggg", "rg", "mg", "grg", "mgg", "r", "gr", "gm"]
     if tier == "thorough":
@@ -169,11 +175,12 @@ class ChainFit(Contract):
     frame_attrs = {"region_"}
 
     def configs(self, tier):
-        return [{"kinds": k, "weights": w} for k in _chain_kinds(tier) for w in (False, True)][: (400 if tier == "thorough" else 20)]
+        out = [{"kinds": k, "weights": w} for k in _chain_kinds(tier) for w in (False, True)][: (400 if tier == "thorough" else 20)]
+        return out + [{"kinds": "gg", "weights": False, "names": "same"}, {"kinds": "grg", "weights": True, "names": "same"}]
 
     def setup(self, B, cfg):
         chain = verde.Chain.__new__(verde.Chain)
-        chain.steps = [("s%d" % k, AbstractStep("c%d" % k, kind)) for k, kind in enumerate(cfg["kinds"])]
+        chain.steps = [(_sname(cfg, k), AbstractStep("c%d" % k, kind)) for k, kind in enumerate(cfg["kinds"])]
         coords = _coords(B, 1, 0, minsize=1)
         return (chain, coords, B.array("data", coords[0].shape)), dict(weights=B.array("weights", coords[0].shape) if cfg["weights"] else None)
 
@@ -221,10 +228,10 @@ class ChainIdentity(Contract):
         out = [{"n": n, "weights": w, "rank": r} for n in (1, 2, 3) for w in (False, True) for r in (1, 2)]
         if tier == "thorough":
             out += [{"n": 4, "weights": False, "rank": 1}]
-        return out
+        return out + [{"n": 2, "weights": False, "rank": 1, "names": "same"}, {"n": 3, "weights": True, "rank": 1, "names": "same"}]
 
     def setup(self, B, cfg):
-        steps = [("s%d" % k, AbstractGridder("i%d" % k, 1)) for k in range(cfg["n"])]
+        steps = [(_sname(cfg, k), AbstractGridder("i%d" % k, 1)) for k in range(cfg["n"])]
         coords = _coords(B, cfg["rank"], 0, minsize=1)
         return (steps, coords, B.array("data", coords[0].shape), B.array("weights", coords[0].shape) if cfg["weights"] else None), {}
 
@@ -236,6 +243,7 @@ class ChainIdentity(Contract):
             steps = rng.choice([
                 [("t", verde.Trend(1))],
                 [("t", verde.Trend(1)), ("s", verde.Spline())],
+                [("t", verde.Trend(1)), ("k", verde.KNeighbors(k=3)), ("t", verde.Trend(2))],  # a label used twice
                 [("t", verde.Trend(2)), ("k", verde.KNeighbors())],
                 [("t", verde.Trend(0)), ("c", verde.Chain([("t1", verde.Trend(1)), ("k", verde.KNeighbors(k=2))]))],
             ])
@@ -287,12 +295,12 @@ class ChainFilter(Contract):
 
     def configs(self, tier):
         kinds = ["g", "gg", "rg", "mg", "grg", "gmg"] + (["rgg", "ggg", "mgrg"] if tier == "thorough" else [])
-        return [{"kinds": k, "weights": w, "rank": r} for k in kinds for w, r in ((False, 1), (True, 2))]
+        return [{"kinds": k, "weights": w, "rank": r} for k in kinds for w, r in ((False, 1), (True, 2))] + [{"kinds": "grg", "weights": False, "rank": 1, "names": "same"}]
 
     def setup(self, B, cfg):
         steps = []
         for k, kind in enumerate(cfg["kinds"]):
-            steps.append(("s%d" % k, AbstractGridder("f%d" % k, 1) if kind == "g" else AbstractReducer("f%d" % k, kind == "m")))
+            steps.append((_sname(cfg, k), AbstractGridder("f%d" % k, 1) if kind == "g" else AbstractReducer("f%d" % k, kind == "m")))
         coords = _coords(B, cfg["rank"], 0, minsize=1)
         return (steps, coords, B.array("data", coords[0].shape), B.array("weights", coords[0].shape) if cfg["weights"] else None), {}
 
@@ -381,7 +389,7 @@ class ChainPredict(Contract):
     cover_raise = True
 
     def configs(self, tier):
-        return [{"kinds": "g", "ncomp": 1}, {"kinds": "gg", "ncomp": 1}, {"kinds": "rgg", "ncomp": 1}, {"kinds": "gmg", "ncomp": 2}, {"kinds": "gg", "ncomp": 3}, {"kinds": "g", "ncomp": 1, "fitted": False}]
+        return [{"kinds": "g", "ncomp": 1}, {"kinds": "gg", "ncomp": 1}, {"kinds": "rgg", "ncomp": 1}, {"kinds": "gmg", "ncomp": 2}, {"kinds": "gg", "ncomp": 3}, {"kinds": "g", "ncomp": 1, "fitted": False}, {"kinds": "ggg", "ncomp": 1, "names": "same"}]
 
     def setup(self, B, cfg):
         chain = verde.Chain.__new__(verde.Chain)
@@ -389,7 +397,7 @@ class ChainPredict(Contract):
         for k, kind in enumerate(cfg["kinds"]):
             g = AbstractGridder("p%d" % k, cfg["ncomp"])
             g.nfit_ = 1
-            steps.append(("s%d" % k, g if kind == "g" else AbstractReducer("p%d" % k, kind == "m")))
+            steps.append((_sname(cfg, k), g if kind == "g" else AbstractReducer("p%d" % k, kind == "m")))
         chain.steps = steps
         if cfg.get("fitted", True):
             chain.region_ = (0.0, 1.0, 0.0, 1.0)
